@@ -114,6 +114,7 @@ extern "C" void h_main() {
 // real MPI run; violations that need a particular order may therefore not reproduce (they are then reported as not reproduced).
 #include <signal.h>
 #include <unistd.h>
+#include <boost/serialization/map.hpp>
 static void on_alarm(int) { std::printf("FAILED no deadlock: some rank can always move or a message is in flight until all ranks have left\n"); std::fflush(stdout); _exit(3); }
 struct NJob { int id, complexity; int* counter; NJob() : id(-1), complexity(1), counter(0) {} NJob(int id, int c, int* cnt) : id(id), complexity(c), counter(cnt) {} void run() { counter[id]++; } };
 int main(int argc, char** argv) {
